@@ -152,7 +152,7 @@ func solveOne(e *Enc, o *Obligation, idx int, opts solveOpts) {
 	}
 	b, ok := race(solvers, fileB, opts.TimeoutS)
 	o.Seconds += b.seconds
-	if !ok && opts.Retry {
+	if !ok && opts.Retry && modelA == "" {
 		for _, sd := range solvers[:2] {
 			b2 := runSolver(sd, fileB, 6*opts.TimeoutS)
 			o.Seconds += b2.seconds
